@@ -24,7 +24,7 @@ BASE_ENV = dict(os.environ, PYTHONPATH=os.path.join(REPO, 'src'), PYTHONHASHSEED
 TRUSTED_BASE = [
     'Coq 8.16.1 kernel incl. vm_compute (no native_compute); coqchk re-check in thorough tier',
     'no axioms declared; Print Assumptions output captured in this evidence per theorem',
-    'harness/translate.py (import-and-dump of tables + fail-closed ast patterns) generating coq/gen/Tables.v on every run',
+    'harness/translate.py on every run: import-and-dump of the tables + fail-closed ast patterns (T1) and the statement-by-statement translators of integer kernels (T1b) and of decision kernels over strings, booleans and lists (T1c) -> coq/gen/Tables.v; harness/codectrans.py: message codecs SSH2_Kex / SSH1_PublicKeyMessage parse/write with symbolic evaluation of the constructors (T1d) -> coq/gen/Codecs.v; the translators\' reading of the Python subset they accept is trusted',
     'hand-written Gallina models under coq/model tied to the code by differential correspondence (model evaluated by coqc vm_compute on the same inputs as the implementation)',
     'harness code: generators, scripted TCP peers, CLI fork runner, output canonicalisers, Python oracles, known-finding matchers',
     'CPython semantics of primitives named in DESIGN.md section 3 (struct, slices, str.split, re, json, hashlib, socket, threading, time) are modelled or observed, not verified',
